@@ -5,6 +5,7 @@
 #include "goldilocks_base_field.hpp"
 #include "goldilocks_cubic_extension.hpp"
 #include <gmpxx.h>
+#include <omp.h>
 
 using pbt::Case; using pbt::Ctx;
 typedef Goldilocks::Element E;
@@ -15,6 +16,30 @@ static std::string s3(const ref::E3 &a) { return "(" + hx(a[0]) + "," + hx(a[1])
 static ref::E3 rd(const E3 &x) { return {x[0].fe % PR, x[1].fe % PR, x[2].fe % PR}; }
 static void wr(E3 &x, const ref::E3 &a) { x[0].fe = a[0]; x[1].fe = a[1]; x[2].fe = a[2]; }
 
+// ---- calls made DURING STATIC INITIALISATION (this translation unit is first on the link line) ----
+struct EarlyProbe3 {
+    bool one_is_one, zero_is_one, oneish_is_one; uint64_t prod[3], invp[3]; bool skipped = false;
+    EarlyProbe3() {
+        if (getenv("PBT_NO_EARLY")) { skipped = true; return; }
+        E3 a = {{0xFFFFFFFF00000005ull}, {7}, {0xFFFFFFFFFFFFFFFFull}}, b = {{3}, {0xFFFFFFFF00000000ull}, {11}}, o = {{1}, {0}, {0}}, z = {{0}, {0}, {0}}, q = {{PR + 1}, {PR}, {0}}, r, iv, pr;
+        one_is_one = Goldilocks3::isOne(o); zero_is_one = Goldilocks3::isOne(z); oneish_is_one = Goldilocks3::isOne(q);
+        Goldilocks3::mul(r, a, b); for (int i = 0; i < 3; i++) prod[i] = r[i].fe % PR;
+        Goldilocks3::inv(iv, a); Goldilocks3::mul(pr, iv, a); for (int i = 0; i < 3; i++) invp[i] = pr[i].fe % PR;
+        // (Goldilocks3::one() / zero() are not probed: the constants ONE / ZERO are objects of the library's own translation unit and the property
+        // does not speak about them; only the operations it lists are checked at this point of the program)
+    }
+};
+static EarlyProbe3 g_early3;
+static bool body_static_init(const Case &, Ctx &ctx)
+{
+    if (g_early3.skipped) { ctx.cls("context:static-initialisation-probe-switched-off"); return true; }
+    ctx.nt("context:called-during-static-initialisation");
+    if (!g_early3.one_is_one || g_early3.zero_is_one || !g_early3.oneish_is_one) return ctx.fail("isOne called during static initialisation (before main): isOne((1,0,0)) = " + std::to_string(g_early3.one_is_one) + ", isOne((0,0,0)) = " + std::to_string(g_early3.zero_is_one) + ", isOne((p+1,p,0)) = " + std::to_string(g_early3.oneish_is_one));
+    ref::E3 a = {0xFFFFFFFF00000005ull, 7, 0xFFFFFFFFFFFFFFFFull}, b = {3, 0xFFFFFFFF00000000ull, 11}, w = ref::mul3(a, b);
+    for (int i = 0; i < 3; i++) if (g_early3.prod[i] != w[i]) return ctx.fail("mul called during static initialisation returned a wrong coefficient " + std::to_string(i));
+    if (g_early3.invp[0] != 1 || g_early3.invp[1] != 0 || g_early3.invp[2] != 0) return ctx.fail("inv called during static initialisation: a*inv(a) is not one");
+    return true;
+}
 enum Op { ADD_EE, ADD_EB, ADD_BE, ADD_EU, SUB_EE, SUB_BE, SUB_EB, SUB_EU, NEG, MUL_EE, MUL_EE_PTR, MUL_EB, MUL_BE, MUL_EU, SQUARE, DIV_B, INV, INV_PTR, NOPS };
 static const char *OPN[] = {"add(E,E)", "add(E,base)", "add(base,E)", "add(E,u64)", "sub(E,E)", "sub(base,E)", "sub(E,base)", "sub(E,u64)", "neg", "mul(E,E)", "mul(E*,E*)", "mul(E,base)", "mul(base,E)", "mul(E,u64)", "square", "div(E,base)", "inv", "inv(ptr)"};
 
@@ -134,6 +159,11 @@ static bool body_batchinv(const Case &c, Ctx &ctx)
     E3 *S = (E3 *)malloc(n * sizeof(E3)), *R = (E3 *)malloc(n * sizeof(E3));
     for (uint64_t i = 0; i < n; i++) wr(S[i], src[i]);
     bool alias = c.v[1] & 1;
+    // bit 1: the call is made by one member of an enclosing parallel region (whatever parallelism the routine uses gets a team of one)
+    if (c.v[1] & 2) { ctx.nt("batchInverse:called-inside-a-parallel-region");
+#pragma omp parallel num_threads(2)
+        { if (omp_get_thread_num() == 0) Goldilocks3::batchInverse(alias ? S : R, S, n); }
+    } else
     Goldilocks3::batchInverse(alias ? S : R, S, n);
     bool ok = true; std::string why;
     for (uint64_t i = 0; i < n && ok; i++) {
@@ -171,7 +201,12 @@ static rc::Gen<std::vector<uint64_t>> gen_coeffs(int n)
     // coefficient vectors: independent boundary classes, or sparse (many zero / one coefficients), or all equal
     return rc::gen::weightedOneOf<std::vector<uint64_t>>({{6, g::fe_vec(n)},
         {2, rc::gen::apply([n](std::vector<uint64_t> v, uint64_t mask) { for (int i = 0; i < n; i++) if ((mask >> i) & 1) v[i] = (mask >> (8 + i)) & 1 ? PR : 0; return v; }, g::fe_vec(n), g::uni64())},
-        {1, rc::gen::map(g::fe(), [n](uint64_t x) { return std::vector<uint64_t>(n, x); })}});
+        {1, rc::gen::map(g::fe(), [n](uint64_t x) { return std::vector<uint64_t>(n, x); })},
+        // relations inside each coefficient triple: sums that vanish although no coefficient does, equal coefficients, embedded base elements in both representations
+        {2, rc::gen::apply([n](std::vector<uint64_t> v, uint64_t m) { for (int k = 0; k + 2 < n; k += 3) { uint64_t *q = &v[k];
+                switch ((m >> (4 * (k / 3))) % 8) { case 0: q[2] = ref::sub(0, q[1]); break; case 1: q[1] = ref::sub(0, q[0]); break; case 2: q[2] = ref::sub(0, q[0]); break; case 3: q[2] = q[1]; break;
+                    case 4: q[2] = ref::sub(0, ref::add(q[0], q[1])); break; case 5: q[1] = PR; q[2] = 0; break; case 6: q[2] = ref::sub(0, q[1]); if (q[2] < 0xFFFFFFFFull) q[2] += PR; break; default: q[0] = 0; q[1] = ref::sub(0, q[2]); break; } }
+              return v; }, g::fe_vec(n), g::uni64())}});
 }
 
 int main(int argc, char **argv)
@@ -187,13 +222,15 @@ int main(int argc, char **argv)
                                    return v; }); }, body_mulscalar, 1, false, desc_ms, 100},
         {"c09.batchInverse", [] { return rc::gen::exec([] {
                                       uint64_t n = *rc::gen::weightedOneOf<uint64_t>({{20, g::range(1, 4)}, {27, g::range(1, 64)}, {7, g::range(65, 2000)}, {1, g::elem({4095, 4097, 16383, 16384, 16385, 16387, 30001, 65536, 65537})}});
-                                      std::vector<uint64_t> v{n, *g::uni64()};
+                                      std::vector<uint64_t> v{n, *g::uni64()}; if (*g::irange(0, 3)) v[1] &= ~(uint64_t)2; // (a quarter of the calls from inside a parallel region)
                                       uint64_t ex = std::min<uint64_t>(n, 8);
                                       auto co = *gen_coeffs((int)(3 * ex)); v.insert(v.end(), co.begin(), co.end());
                                       return v; }); }, body_batchinv, 1, false, desc_bi, 100},
+        {"c09.static_init", [] { return rc::gen::just(std::vector<uint64_t>{0}); }, body_static_init, 0.0001, false, nullptr, 100},
         {"c09.isOne", [] { return rc::gen::weightedOneOf<std::vector<uint64_t>>({{3, g::fe_vec(3)},
                                {3, rc::gen::apply([](uint64_t y, uint64_t z, int f) { return std::vector<uint64_t>{(f & 1) ? PR + 1 : 1, (f & 2) ? y : ((f & 8) ? PR : 0), (f & 4) ? z : ((f & 16) ? PR : 0)}; }, g::fe(), g::fe(), g::irange(0, 31))},
                                {1, rc::gen::elementOf(std::vector<std::vector<uint64_t>>{{1, 0, 0}, {PR + 1, PR, PR}, {0, 0, 0}, {1, 5, 7}, {1, 1, 1}, {1, 0, 1}, {1, 1, 0}, {0, 1, 0}, {PR, PR, PR}, {2, 0, 0}})}}); }, body_isone, 1, false, desc_io, 100},
     };
+    for (auto &p : props) if (p.name != "c09.static_init") p.mt_ok = true;
     return pbt::harness_main(argc, argv, "h_cubic", props);
 }
